@@ -25,6 +25,11 @@ type Case struct {
 	Minimised   bool            `json:"minimised"`
 	GenTape     bool            `json:"gen_tape,omitempty"` // tape is regenerated from (seed, property, run)
 	Trace       []string        `json:"trace,omitempty"`
+	// PreludeStride > 0: before the case, the replay runs the run this worker
+	// process executed just before it (run - stride of the same seed): the failure
+	// needs state that the code under test keeps across server instances.
+	PreludeStride int    `json:"prelude_stride,omitempty"`
+	ReplayNote    string `json:"replay_note,omitempty"`
 }
 
 type Violation struct {
